@@ -1392,6 +1392,249 @@ Proof.
 Qed.
 End Reload.
 
+(** * Additions: nothing is invented (no memory-model hypothesis); function ends *)
+
+Lemma in_all_insts x m : In x (all_insts m) <-> exists k, In k keys /\ In x (sec_insts m k).
+Proof. rewrite all_insts_keys. apply in_flat_map. Qed.
+
+Lemma step_subset s t i s1 :
+  step s t i s1 -> forall x, In x (all_of s1) -> In x (all_of s) \/ x = i.
+Proof.
+  intros H x Hx. destruct (token_eqb t TMemoryModel) eqn:E.
+  - destruct t; try discriminate E.
+    inversion H as [m h fo bo t k i0 m' Ht Hp| m h fo bo i0 | m h fo b t i0 Ht | | | | | ]; subst.
+    + destruct Ht as [Ht|[(Ht & _)|(Ht & _)]]; discriminate Ht.
+    + unfold all_of in *. cbn [l_module] in *. unfold pending in *. cbn [l_function l_block] in *.
+      apply in_app_or in Hx. destruct Hx as [Hx|Hx]; [|left; apply in_or_app; right; exact Hx].
+      apply in_all_insts in Hx. destruct Hx as (k & Hk & Hx). rewrite sec_insts_set_mm in Hx.
+      destruct (N.eqb k 3).
+      * destruct Hx as [<-|[]]. right. reflexivity.
+      * left. apply in_or_app. left. apply in_all_insts. exists k. split; assumption.
+    + destruct Ht as [Ht|[Ht|(Ht & _)]]; discriminate Ht.
+  - assert (P : Permutation (all_of s1) (all_of s ++ [i])).
+    { apply (step_perm _ _ _ _ H). intros ->. discriminate E. }
+    apply (Permutation_in _ P) in Hx. apply in_app_or in Hx. destruct Hx as [Hx|[<-|[]]]; auto.
+Qed.
+
+(** nothing is invented, even when a memory model is overwritten *)
+Theorem feed_loaded_subset tis s :
+  spec_feed linit tis = LCont s ->
+  forall x, In x (all_insts (l_module s) ++ pending s) -> In x (map snd tis).
+Proof.
+  apply (feed_invariant (fun s fed => forall x, In x (all_of s) -> In x (map snd fed))).
+  - intros x Hx. exact Hx.
+  - intros s0 fed t i s1 I0 Hstep x Hx. rewrite map_app. cbn [map snd]. apply in_or_app.
+    destruct (step_subset _ _ _ _ Hstep x Hx) as [H| ->]; [left; auto|right; left; reflexivity].
+Qed.
+
+Theorem loaded_subset tis s :
+  spec_load tis = LCont s -> forall x, In x (all_insts (l_module s)) -> In x (map snd tis).
+Proof.
+  intros H x Hx. apply spec_load_feed in H. destruct H as (H & _ & _).
+  apply (feed_loaded_subset _ _ H). apply in_or_app. left. exact Hx.
+Qed.
+
+(** ** function ends, function skeletons, whole functions *)
+Definition fn_ends (fs : list (func inst)) : list inst := flat_map (fun f => olist (f_end f)) fs.
+(** a function without its parameters *)
+Definition fn_skeleton (f : func inst) : list inst :=
+  olist (f_def f) ++ flat_map block_insts (f_blocks f) ++ olist (f_end f).
+Definition skel_open (s : lstate) : list inst :=
+  match l_function s with Some f => olist (f_def f) ++ flat_map block_insts (f_blocks f) | None => [] end
+  ++ pending_blk (l_block s).
+
+Lemma fn_ends_step s t i s1 :
+  step s t i s1 ->
+  fn_ends (m_functions (l_module s1))
+  = fn_ends (m_functions (l_module s)) ++ (if token_eqb t TFunctionEnd then [i] else []).
+Proof.
+  intros H.
+  destruct H as [m h fo bo t k i m' Ht Hp| m h fo bo i | m h fo b t i Ht | m h bo i | m h f i | m h f bo i | m h f i | m h f b i];
+    unfold fn_ends; cbn [l_module token_eqb push_function set_memory_model m_functions fn_close f_end olist].
+  - pose proof (push_section_spec _ _ _ _ Hp) as (_ & _ & _ & _ & -> & _).
+    destruct Ht as [->|[(-> & _)|(-> & _)]]; cbn [token_eqb]; rewrite app_nil_r; reflexivity.
+  - rewrite app_nil_r; reflexivity.
+  - destruct Ht as [->|[->|(-> & _)]]; cbn [token_eqb]; rewrite app_nil_r; reflexivity.
+  - rewrite app_nil_r; reflexivity.
+  - rewrite flat_map_app. cbn [flat_map f_end olist]. rewrite app_nil_r. reflexivity.
+  - rewrite app_nil_r; reflexivity.
+  - rewrite app_nil_r; reflexivity.
+  - rewrite app_nil_r; reflexivity.
+Qed.
+
+Lemma fn_ends_holds tis s :
+  spec_feed linit tis = LCont s -> fn_ends (m_functions (l_module s)) = insts_of TFunctionEnd tis.
+Proof.
+  apply (feed_invariant (fun s fed => fn_ends (m_functions (l_module s)) = insts_of TFunctionEnd fed)).
+  - reflexivity.
+  - intros s0 fed t i s1 I0 Hstep. rewrite insts_of_snoc, <- I0. apply fn_ends_step. exact Hstep.
+Qed.
+
+Lemma subseq_take_eq {A} (X X' F : list A) i : X' = X ++ [i] -> subseq X F -> subseq X' (F ++ [i]).
+Proof. intros -> H. apply subseq_snoc_take. exact H. Qed.
+Lemma subseq_skip_eq {A} (X X' F : list A) i : X' = X -> subseq X F -> subseq X' (F ++ [i]).
+Proof. intros -> H. apply subseq_snoc_skip. exact H. Qed.
+
+Definition dpe (f : func inst) : list inst := olist (f_def f) ++ f_params f ++ olist (f_end f).
+
+Definition k1 (s : lstate) (F : list inst) : Prop :=
+  (l_function s = None -> l_block s = None)
+  /\ subseq (skel_open s) F
+  /\ (forall f, In f (m_functions (l_module s)) -> subseq (fn_skeleton f) F /\ subseq (dpe f) F)
+  /\ (forall f, l_function s = Some f -> subseq (olist (f_def f) ++ f_params f) F).
+
+Ltac unfold_skel :=
+  unfold skel_open, fn_skeleton, dpe, pending, pending_fn, pending_blk, block_insts, func_insts,
+    blk_push, fn_new, fn_close, fn_param, fn_block, blk_new;
+  cbn [l_module l_function l_block l_header b_label b_insts f_def f_end f_params f_blocks olist].
+
+Lemma k1_step s t i s1 F : k1 s F -> step s t i s1 -> k1 s1 (F ++ [i]).
+Proof.
+  intros (Hfb & Hsk & Hcl & Hop) H.
+  assert (Hcl' : forall f, In f (m_functions (l_module s)) -> subseq (fn_skeleton f) (F ++ [i]) /\ subseq (dpe f) (F ++ [i])).
+  { intros f Hf. destruct (Hcl f Hf). split; apply subseq_snoc_skip; assumption. }
+  destruct H as [m h fo bo t k i m' Ht Hp| m h fo bo i | m h fo b t i Ht | m h bo i | m h f i | m h f bo i | m h f i | m h f b i];
+    unfold k1; cbn [l_function l_block l_module] in *.
+  - pose proof (push_section_spec _ _ _ _ Hp) as (_ & _ & _ & _ & Hfns & _).
+    split; [assumption|]. split; [apply subseq_snoc_skip; exact Hsk|]. split; [rewrite Hfns; exact Hcl'|].
+    intros f Hf. apply subseq_snoc_skip. auto.
+  - split; [assumption|]. split; [apply subseq_snoc_skip; exact Hsk|]. split; [exact Hcl'|].
+    intros f Hf. apply subseq_snoc_skip. auto.
+  - split; [intros ->; discriminate (Hfb eq_refl)|]. split; [|split; [exact Hcl'|]].
+    + apply (subseq_take_eq (skel_open (mk m h fo (Some b)))); [|exact Hsk]. unfold_skel. norm_app. reflexivity.
+    + intros f Hf. apply subseq_snoc_skip. auto.
+  - rewrite (Hfb eq_refl) in *. split; [discriminate|]. split; [|split; [exact Hcl'|]].
+    + apply (subseq_take_eq []); [reflexivity|apply subseq_nil_l].
+    + intros f Hf. injection Hf as <-. apply (subseq_take_eq []); [reflexivity|apply subseq_nil_l].
+  - split; [reflexivity|]. split; [apply subseq_nil_l|]. split; [|discriminate].
+    intros f0 Hf0. cbn [push_function m_functions] in Hf0. apply in_app_or in Hf0.
+    destruct Hf0 as [Hf0|[<-|[]]]; [auto|]. split.
+    + apply (subseq_take_eq (skel_open (mk m h (Some f) None))); [|exact Hsk]. unfold_skel. norm_app. reflexivity.
+    + apply (subseq_take_eq (olist (f_def f) ++ f_params f)); [|exact (Hop f eq_refl)]. unfold_skel. norm_app. reflexivity.
+  - split; [discriminate|]. split; [apply subseq_snoc_skip; exact Hsk|]. split; [exact Hcl'|].
+    intros f0 Hf0. injection Hf0 as <-.
+    apply (subseq_take_eq (olist (f_def f) ++ f_params f)); [|exact (Hop f eq_refl)]. unfold_skel. norm_app. reflexivity.
+  - split; [discriminate|]. split; [|split; [exact Hcl'|]].
+    + apply (subseq_take_eq (skel_open (mk m h (Some f) None))); [|exact Hsk]. unfold_skel. norm_app. reflexivity.
+    + intros f0 Hf0. apply subseq_snoc_skip. auto.
+  - split; [discriminate|]. split; [|split; [exact Hcl'|]].
+    + apply (subseq_take_eq (skel_open (mk m h (Some f) (Some b)))); [|exact Hsk]. unfold_skel. norm_app. reflexivity.
+    + intros f0 Hf0. injection Hf0 as <-. apply subseq_snoc_skip. exact (Hop f eq_refl).
+Qed.
+
+Lemma k1_holds tis s : spec_feed linit tis = LCont s -> k1 s (map snd tis).
+Proof.
+  apply (feed_invariant (fun s fed => k1 s (map snd fed))).
+  - split; [reflexivity|]. split; [constructor|]. split; [intros f []|intros f Hf; discriminate Hf].
+  - intros s0 fed t i s1 I0 Hstep. rewrite map_app. cbn [map snd]. eapply k1_step; eassumption.
+Qed.
+
+(** with parameters first, whole functions are subsequences *)
+Definition lbl_of (ts : list token) : bool := fold_left lbl_after ts false.
+
+Lemma params_first_app a : forall lbl b,
+  params_first lbl (a ++ b) = params_first lbl a && params_first (fold_left lbl_after a lbl) b.
+Proof.
+  induction a as [|t a IH]; intros lbl b; cbn [app params_first fold_left]; [reflexivity|].
+  rewrite IH, andb_assoc. reflexivity.
+Qed.
+
+Definition k2 (s : lstate) (lbl : bool) (F : list inst) : Prop :=
+  (lbl = false -> l_block s = None /\ forall f, l_function s = Some f -> f_blocks f = [])
+  /\ subseq (pending s) F
+  /\ (forall f, In f (m_functions (l_module s)) -> subseq (func_insts f) F).
+
+Lemma k2_step s t i s1 lbl F :
+  (l_function s = None -> l_block s = None) -> k2 s lbl F -> step s t i s1 ->
+  negb (is_param t && lbl) = true -> k2 s1 (lbl_after lbl t) (F ++ [i]).
+Proof.
+  intros Hfb (Hl & Hp & Hcl) H Hpar.
+  assert (Hcl' : forall f, In f (m_functions (l_module s)) -> subseq (func_insts f) (F ++ [i])).
+  { intros f Hf. apply subseq_snoc_skip. auto. }
+  destruct H as [m h fo bo t k i m' Ht Hp'| m h fo bo i | m h fo b t i Ht | m h bo i | m h f i | m h f bo i | m h f i | m h f b i];
+    unfold k2; cbn [l_function l_block l_module lbl_after] in *.
+  - pose proof (push_section_spec _ _ _ _ Hp') as (_ & _ & _ & _ & Hfns & _).
+    assert (E : lbl_after lbl t = lbl) by (destruct Ht as [->|[(-> & _)|(-> & _)]]; reflexivity).
+    rewrite E, Hfns. split; [exact Hl|]. split; [apply subseq_snoc_skip; exact Hp|exact Hcl'].
+  - split; [exact Hl|]. split; [apply subseq_snoc_skip; exact Hp|exact Hcl'].
+  - assert (E : lbl_after lbl t = lbl) by (destruct Ht as [->|[->|(-> & _)]]; reflexivity).
+    rewrite E. split; [intros Hx; destruct (Hl Hx) as (Hy & _); discriminate Hy|]. split; [|exact Hcl'].
+    apply (subseq_take_eq (pending (mk m h fo (Some b)))); [|exact Hp]. unfold_skel. norm_app. reflexivity.
+  - rewrite (Hfb eq_refl) in *. split; [intros _; split; [reflexivity|intros f Hf; injection Hf as <-; reflexivity]|].
+    split; [|exact Hcl']. apply (subseq_take_eq []); [reflexivity|apply subseq_nil_l].
+  - split; [intros _; split; [reflexivity|discriminate]|]. split; [apply subseq_nil_l|].
+    intros f0 Hf0. cbn [push_function m_functions] in Hf0. apply in_app_or in Hf0.
+    destruct Hf0 as [Hf0|[<-|[]]]; [auto|].
+    apply (subseq_take_eq (pending (mk m h (Some f) None))); [|exact Hp]. unfold_skel. norm_app. reflexivity.
+  - cbn [is_param andb] in Hpar. assert (Hlbl : lbl = false) by (destruct lbl; [discriminate Hpar|reflexivity]).
+    destruct (Hl Hlbl) as (Hbo & Hbls). specialize (Hbls f eq_refl). subst bo.
+    split; [intros _; split; [reflexivity|intros f0 Hf0; injection Hf0 as <-; exact Hbls]|]. split; [|exact Hcl'].
+    apply (subseq_take_eq (pending (mk m h (Some f) None))); [|exact Hp]. unfold_skel. rewrite Hbls. norm_app. reflexivity.
+  - split; [discriminate|]. split; [|exact Hcl'].
+    apply (subseq_take_eq (pending (mk m h (Some f) None))); [|exact Hp]. unfold_skel. norm_app. reflexivity.
+  - split; [intros Hx; destruct (Hl Hx) as (Hy & _); discriminate Hy|]. split; [|exact Hcl'].
+    apply (subseq_take_eq (pending (mk m h (Some f) (Some b)))); [|exact Hp]. unfold_skel. norm_app. reflexivity.
+Qed.
+
+Lemma k2_holds tis s :
+  spec_feed linit tis = LCont s -> params_first false (map fst tis) = true ->
+  k2 s (lbl_of (map fst tis)) (map snd tis).
+Proof.
+  intros H.
+  assert (G : k1 s (map snd tis) /\ (params_first false (map fst tis) = true -> k2 s (lbl_of (map fst tis)) (map snd tis))).
+  { revert H. apply (feed_invariant (fun s fed => k1 s (map snd fed) /\
+        (params_first false (map fst fed) = true -> k2 s (lbl_of (map fst fed)) (map snd fed)))).
+    - split.
+      + split; [reflexivity|]. split; [constructor|]. split; [intros f []|intros f Hf; discriminate Hf].
+      + intros _. split; [intros _; split; [reflexivity|discriminate]|]. split; [constructor|intros f []].
+    - intros s0 fed t i s1 (I1 & I2) Hstep. rewrite !map_app. cbn [map fst snd]. split.
+      + eapply k1_step; eassumption.
+      + intros Hpf. rewrite params_first_app in Hpf. apply andb_prop in Hpf as (Hpf1 & Hpf2).
+        cbn [params_first] in Hpf2. apply andb_prop in Hpf2 as (Hpf2 & _).
+        unfold lbl_of. rewrite fold_left_app. cbn [fold_left].
+        apply (k2_step s0 t i s1); [apply I1|apply I2; exact Hpf1|exact Hstep|exact Hpf2]. }
+  apply G.
+Qed.
+
+(** the function ends are exactly the TFunctionEnd instructions in input order;
+    every function without its parameters (def, blocks, end) is a subsequence
+    of the input, and so is def ++ parameters ++ end *)
+Theorem function_ends_in_order tis s :
+  spec_load tis = LCont s ->
+  let m := l_module s in let F := map snd tis in
+  fn_ends (m_functions m) = insts_of TFunctionEnd tis
+  /\ (forall f, In f (m_functions m) -> subseq (fn_skeleton f) F)
+  /\ (forall f, In f (m_functions m) -> subseq (olist (f_def f) ++ f_params f ++ olist (f_end f)) F).
+Proof.
+  intros H m F. apply spec_load_feed in H. destruct H as (H & _ & _).
+  destruct (k1_holds _ _ H) as (_ & _ & K & _).
+  split; [apply fn_ends_holds; exact H|]. split; intros f Hf; apply (K f Hf).
+Qed.
+
+(** whole functions: needs parameters-first (counterexample below) *)
+Theorem functions_are_subsequences tis s :
+  spec_load tis = LCont s -> params_first false (map fst tis) = true ->
+  forall f, In f (m_functions (l_module s)) -> subseq (func_insts f) (map snd tis).
+Proof.
+  intros H Hpf. apply spec_load_feed in H. destruct H as (H & _ & _).
+  destruct (k2_holds _ _ H Hpf) as (_ & _ & K). exact K.
+Qed.
+
+(** without parameters-first a whole function need not be a subsequence: the
+    late OpFunctionParameter is moved in front of the block *)
+Example whole_function_needs_params_first :
+  let tis := [(TFunction, ex_inst 54 1); (TLabel, ex_inst 248 2); (TTerminator, ex_inst 253 3);
+              (TParameter, ex_inst 55 4); (TFunctionEnd, ex_inst 56 5)] in
+  exists s, spec_load tis = LCont s
+    /\ ~ (forall f, In f (m_functions (l_module s)) -> subseq (func_insts f) (map snd tis)).
+Proof.
+  eexists. split; [vm_compute; reflexivity|]. intros H.
+  specialize (H _ (or_introl eq_refl)). vm_compute in H.
+  repeat match goal with
+         | H : subseq _ _ |- _ => inversion H; clear H; subst
+         end.
+Qed.
+
 (** why [rank] gives a TModule / TMemoryModel token its own section rank even
     between TFunction and TFunctionEnd: such an instruction is accepted there
     and filed in its global section, i.e. hoisted out of the function; with
@@ -1431,3 +1674,8 @@ Print Assumptions reload_idempotent.
 Print Assumptions reload_idempotent_module.
 Print Assumptions traversal_layout_ordered.
 Print Assumptions loaded_traversal_layout_ordered.
+Print Assumptions feed_loaded_subset.
+Print Assumptions loaded_subset.
+Print Assumptions function_ends_in_order.
+Print Assumptions functions_are_subsequences.
+Print Assumptions whole_function_needs_params_first.
